@@ -7,10 +7,16 @@ import TTV.Drv.Res
 namespace TTV.Drv.C04
 open TTV TTV.Sexp TTV.Result TTV.ResC04 TTV.Drv.Res
 
+def pkind? : Sexp → Option PKind
+  | .atom "exit0" => some (.exit (some 0))
+  | .atom "exit3" => some (.exit (some 3))
+  | .atom "exitNone" => some (.exit none)
+  | s => (kind? s).map .out
+
 def input? : Sexp → Option Input
   | .list [s, h, p] => do
       let (sh, hs) ← shapeHist? (.list [s, h])
-      let pr ← opt? (pair? bool? (list? kind?)) p
+      let pr ← opt? (pair? bool? (list? pkind?)) p
       some { shape := sh, hist := hs, prog := pr }
   | _ => none
 
@@ -45,8 +51,11 @@ def ofTrace (t : Trace) : Sexp :=
   .list [ofOpt ofBool t.ff0, ofList ofBool t.leafFF, ofList ofObs t.obs, ofList (ofList ofOut) t.texts,
          ofOpt (ofPair ofNat (ofList ofOut)) t.exit]
 
+def classes (i : Input) : List String :=
+  if Spec.C04.sysExitZero i then ["sysExitZero"] else []
+
 def drv : PropDrv Input Trace :=
-  { decI := input?, decT := trace?, encT := ofTrace, model := model, clauses := Spec.C04.clauses }
+  { decI := input?, decT := trace?, encT := ofTrace, model := model, clauses := Spec.C04.clauses, classes := classes }
 
 def handle : List Sexp → Sexp := drv.handle
 end TTV.Drv.C04
